@@ -111,7 +111,8 @@ def s_setitem(b, t, adv_prob=0.45):
     if np.size(sub) == 0 and rng.random() < 0.8:
         return False
     val, refs = value_for(b, np.shape(sub), tv.dtype.kind)
-    if rng.random() < 0.06 and tv.ndim >= 1 and tv.shape[0] >= 2 and tv.dtype.kind == "f":
+    if rng.random() < 0.06 and tv.ndim >= 1 and tv.shape[0] >= 2 and tv.dtype.kind == "f" and not b.meta.get(t, {}).get("cv"):
+        # (not for constant-view targets: the value would be READ through a constant tensor, which transmits nothing - C10)
         # the very same tensor as the value, under a step-only slice (x[::-1] = x reverses in place)
         ix = (slice(None, None, rng.choice([-1, -1, 1])),) + ((slice(None, None, -1),) if (tv.ndim >= 2 and rng.random() < 0.3) else ())
         if len(ix) == 1 and rng.random() < 0.6:
